@@ -410,11 +410,13 @@ int reb_integrator_bs_step(struct reb_simulation* r, double dt){
     ri_bs->dt_proposed = dt; // In case of early fail
 
     // initial order selection
+    const int reb_verif_tprev = ri_bs->target_iter;
     if (ri_bs->target_iter == 0){
         const double tol    = ri_bs->eps_rel;
         const double log10R = log10(MAX(1.0e-10, tol));
         ri_bs->target_iter = MAX(1, MIN(sequence_length - 2, (int) floor(0.5 - 0.6 * log10R)));
     }
+    REB_VERIF(r, "bs_beg", 7, dt, (double)reb_verif_tprev, (double)ri_bs->target_iter, (double)ri_bs->previous_rejected, (double)ri_bs->first_or_last_step, ri_bs->eps_rel, ri_bs->min_dt);
 
     // maxError not used at the moment.
     // double  maxError = DBL_MAX;
@@ -466,6 +468,7 @@ int reb_integrator_bs_step(struct reb_simulation* r, double dt){
 #if DEBUG
             printf("S");
 #endif
+            REB_VERIF(r, "bs_it", 5, (double)k, 0., 0., 0., 0.);
             dt  = fabs(dt * stabilityReduction);
             reject = 1;
             loop   = 0;
@@ -481,6 +484,7 @@ int reb_integrator_bs_step(struct reb_simulation* r, double dt){
             }
 
             // the substep was computed successfully
+            if (k == 0) REB_VERIF(r, "bs_it", 5, 0., 1., 0., 0., 0.);
             if (k > 0) {
 
                 // extrapolate the state at the end of the step
@@ -512,6 +516,8 @@ int reb_integrator_bs_step(struct reb_simulation* r, double dt){
                 if (isnan(error)) {
                     reb_simulation_error(r, "NaN appearing during ODE integration.");
                     r->status = REB_STATUS_GENERIC_ERROR;
+                    REB_VERIF(r, "bs_it", 5, (double)k, 1., error, 0., 0.);
+                    REB_VERIF(r, "bs_err", 4, ri_bs->dt_proposed, (double)ri_bs->target_iter, (double)ri_bs->previous_rejected, (double)ri_bs->first_or_last_step);
                     return 0;
                 }
 
@@ -520,6 +526,7 @@ int reb_integrator_bs_step(struct reb_simulation* r, double dt){
 #if DEBUG
                     printf("R (error= %.5e)",error);
 #endif
+                    REB_VERIF(r, "bs_it", 5, (double)k, 1., error, 0., 0.);
                     dt  = fabs(dt * stabilityReduction);
                     reject = 1;
                     loop   = 0;
@@ -535,6 +542,7 @@ int reb_integrator_bs_step(struct reb_simulation* r, double dt){
                     fac = MAX(power / stepControl4, MIN(1. / power, fac));
                     ri_bs->optimal_step[k]     = fabs(dt * fac);
                     ri_bs->cost_per_time_unit[k] = ri_bs->cost_per_step[k] / ri_bs->optimal_step[k];
+                    REB_VERIF(r, "bs_it", 5, (double)k, 1., error, ri_bs->optimal_step[k], ri_bs->cost_per_time_unit[k]);
 
                     // check convergence
                     switch (k - ri_bs->target_iter) {
@@ -711,6 +719,7 @@ int reb_integrator_bs_step(struct reb_simulation* r, double dt){
         ri_bs->previous_rejected = 0;
         ri_bs->first_or_last_step = 0;
     }
+    REB_VERIF(r, "bs_end", 8, (double)reject, (double)k, (double)ri_bs->target_iter, ri_bs->dt_proposed, (double)ri_bs->previous_rejected, (double)ri_bs->first_or_last_step, ri_bs->min_dt, ri_bs->max_dt);
     return !reject;
 }
 
@@ -852,6 +861,7 @@ void reb_ode_free(struct reb_ode* ode){
 
 
 void reb_integrator_bs_reset(struct reb_simulation* r){
+    REB_VERIF(r, "bs_reset", 1, 0.);
     struct reb_integrator_bs* ri_bs = &(r->ri_bs);
     
     // Delete nbody ode but not others
